@@ -284,6 +284,9 @@ func (r *PhaseReconciler) teardownPhaseObject(
 		r.ownerStrategy.RemoveOwner(owner.ClientObject(), object)
 		objectPatch := map[string]interface{}{
 			"metadata": map[string]interface{}{
+				// pin the patch to the inspected version: ownerReferences is replaced as a whole,
+				// so an object re-created or re-owned since the read must not be overwritten.
+				"resourceVersion": currentObj.GetResourceVersion(),
 				"labels": map[string]interface{}{
 					constants.DynamicCacheLabel: nil,
 				},
